@@ -177,3 +177,43 @@ Fixpoint dc_run (hs : list (option handler)) (next : N) (ops : list dc_op) : lis
   | DSet n h :: r => dc_run (set_nth n h hs) next r
   | DMsg o k :: r => dc_send hs o k next :: dc_run hs (next + 1) r
   end.
+
+(** * Drivers used by the correspondence runs (checks/c20.py) *)
+Definition tbl_mod (md : N) (t : list N) : handler := fun _ i => nth (N.to_nat (i mod md)) t 0.
+
+(** A sequential live script on node B: SetConsensusHandler (synchronous: it returns after the swap sequence
+    has completed) and publications arriving from a peer.  Expressed through [run]: each LSet contributes one
+    request and exactly the ESteps that complete it. *)
+Inductive live_op := LSet (h : option handler) | LPub (m : netmsg).
+
+Definition live_reqs (ops : list live_op) : list (option handler) :=
+  flat_map (fun o => match o with LSet h => [h] | LPub _ => [] end) ops.
+Definition live_events (P : prog) (ops : list live_op) : list event :=
+  repeat EStep (List.length (p_init P)) ++
+  flat_map (fun o => match o with
+                     | LSet h => repeat EStep (S (List.length (swap_ops P h)))
+                     | LPub m => [EArrive m]
+                     end) ops.
+Definition live_run (P : prog) (ops : list live_op) : list aobs :=
+  map (fun x => snd (fst x)) (run P (rinit P (live_reqs ops)) (live_events P ops)).
+
+(** Boolean form of "this arrival violates relay-only-if-accepted" for a handler-independent probe:
+    [probe] is a decodable proposed header from a peer; every request installs [rejecting]. *)
+Definition rejecting : handler := fun _ _ => FeedbackRejected.
+Definition probe : netmsg := mk_netmsg false (Decoded (mk_dmsg (Some 7) None None)).
+Fixpoint iter_step (P : prog) (k : nat) (s : rstate) : rstate :=
+  match k with O => s | S k' => iter_step P k' (rstep P s) end.
+Definition reg_kind (c : conn) : option vkind :=
+  match reg c with None => None | Some RIgnoreAll => Some VIgnoreAll | Some (RWrap _) => Some VWrapReq | Some RDispatch => Some VDispatch end.
+(** All (scenario, k) at which the probe would be forwarded although no installed handler accepts it;
+    scenario n = n requests alternating rejecting / nil. *)
+Definition gap_scenario (n : nat) : list (option handler) :=
+  map (fun i => if Nat.even i then Some rejecting else None) (seq 0 n).
+Definition gap_search (P : prog) (max_reqs max_k : nat) : list (nat * nat * bool * option vkind) :=
+  flat_map (fun n =>
+    flat_map (fun k =>
+      let s := iter_step P k (rinit P (gap_scenario n)) in
+      if a_forwarded (arrive P (r_conn s) probe)
+      then [(n, k, subscribed (r_conn s), reg_kind (r_conn s))] else [])
+    (seq 0 (S max_k)))
+  (seq 0 (S max_reqs)).
